@@ -290,6 +290,87 @@ def check_syntax(spec, ctx):
                 ctx.true("child_inside_parent", pr["start"] <= r["start"] and r["end"] <= pr["end"], {"child": r["raw"][:60], "parent": pr["raw"][:60]})
 
 
+# ------------------------------------------------------------------------------------ several sequences in one file
+
+
+def check_multi(spec, ctx):
+    """one GFF3 file for several collections (one per sequence): a block of rows per sequence, in sequence-name order when
+    ordered=True (the documented 'sequence then position sorted') and in the given order otherwise; every block is the file of
+    its collection; IDs are unique and Parents resolve over the whole file; FASTA / sequence-region per sequence"""
+    parts = spec["parts"]
+    ctx.nt()
+    colls = [mkcollection(p_["obj"], chrom_parent(p_["genome"], name=p_["name"]), sequence_name=p_["name"]) for p_ in parts]
+    buf = io.StringIO()
+    with warnings.catch_warnings():
+        warnings.simplefilter("ignore")
+        collection_to_gff3(colls, buf, add_sequences=spec["fasta"], ordered=spec["ordered"])
+    text = buf.getvalue()
+    try:
+        doc = read_gff3(text)
+    except FormatError as e:
+        ctx.fail("gff3_unparseable", repr(e)[:200])
+        return
+    ctx.eq("header_first", doc["header"], "##gff-version 3")
+    order = sorted(parts, key=lambda p_: p_["name"]) if spec["ordered"] else list(parts)
+    if [p_["name"] for p_ in order] != [p_["name"] for p_ in parts]:
+        ctx.label("collections_given_out_of_name_order")
+    if not spec["ordered"]:
+        ctx.label("unordered")
+    rows = doc["rows"]
+    groups = []
+    for r in rows:
+        if not groups or groups[-1][0] != r["seqid"]:
+            groups.append((r["seqid"], []))
+        groups[-1][1].append(r)
+    with_rows = [p_ for p_ in order if expected_rows(p_["obj"])]
+    if not ctx.eq("one_block_of_rows_per_sequence_in_order", [gname for gname, _ in groups], [p_["name"] for p_ in with_rows]):
+        return
+    if spec["fasta"]:
+        ctx.label("with_fasta")
+        ctx.eq("fasta_section", doc["fasta"], {p_["name"]: p_["genome"] for p_ in parts})
+        ctx.eq("sequence_region_directives", [d for d in doc["directives"] if d.startswith("##sequence-region")],
+               ["##sequence-region %s 1 %d" % (p_["name"], len(p_["genome"])) for p_ in order])
+    ids = {}
+    for (gname, grows), p_ in zip(groups, with_rows):
+        exp = expected_rows(p_["obj"])
+        got_ms = sorted((r["type"], r["start"] - 1, r["end"], r["strand"], r["phase"]) for r in grows)
+        ctx.eq("rows_equal_source_blocks", got_ms, sorted((t, s_, e_, st_, ph) for t, s_, e_, st_, ph, *_ in exp), extra=gname)
+        starts = [r["start"] for r in grows]
+        ctx.eq("rows_ordered_by_start", starts, sorted(starts), extra=gname)
+        for r in grows:
+            try:
+                ad = attrs_dict(r)
+            except FormatError as e:
+                ctx.fail("duplicate_attribute_key", repr(e)[:150])
+                continue
+            if not ctx.true("id_present", "ID" in ad and len(ad["ID"]) == 1, r["raw"][:80]):
+                continue
+            rid = ad["ID"][0]
+            ctx.true("id_unique", rid not in ids, {"id": rid, "sequence": gname, "first_seen_on": ids.get(rid)})
+            for pa in ad.get("Parent", []):
+                ctx.true("parent_defined_earlier", pa in ids, {"parent": pa, "line": r["line"]})
+                ctx.true("parent_on_same_sequence", ids.get(pa) in (None, gname), {"parent": pa, "child_on": gname, "parent_on": ids.get(pa)})
+            ids[rid] = gname
+
+
+@st.composite
+def strat_multi(draw, tier="quick"):
+    k = draw(st.integers(2, 3))
+    names = draw(st.lists(st.sampled_from(["chr1", "chr2", "chr10", "chrA", "chrB", "contig_7", "Chr1", "chrX"]), min_size=k, max_size=k, unique=True))
+    parts = []
+    for i, nm in enumerate(names):
+        o = draw(S.collection_spec(max_genes=2, max_fcs=1, with_variants=False, region_step=30))
+        hi = o.pop("hi")
+        o.pop("variant_collections", None)
+        for gi, g_ in enumerate(o["genes"]):
+            g_["gene_id"] = "%s_g%d" % (nm, gi)     # distinct content per sequence (identical CDS on two sequences: see F24)
+            for ti, t in enumerate(g_["transcripts"]):
+                t["protein_id"] = "%s_p%d_%d" % (nm, gi, ti) if "cds" in t else None
+        n = hi + draw(st.integers(1, 6))
+        parts.append({"name": nm, "obj": o, "genome": draw(S.dna(n, n))})
+    return {"parts": parts, "fasta": draw(st.booleans()), "ordered": draw(st.sampled_from([True, True, False]))}
+
+
 # ------------------------------------------------------------------------------------ re-parse leg
 
 
@@ -545,15 +626,18 @@ def strat_attributes(draw, tier="quick"):
 
 
 def pred_dup_cds(spec, clause, detail):
-    """two transcripts of the exported collection describe the same CDS (blocks, strand, frames, protein id, product)"""
+    """two transcripts of the exported file (isoforms of a gene, or transcripts on two sequences of one file) describe the same
+    CDS (blocks, strand, frames, protein id, product)"""
     seen = set()
-    for g in spec["obj"].get("genes", []):
-        for t in g["transcripts"]:
-            if "cds" in t:
-                key = json.dumps([t["cds"], t["strand"], t["frames"], t.get("protein_id"), t.get("product")])
-                if key in seen:
-                    return True
-                seen.add(key)
+    objs = [spec["obj"]] if "obj" in spec else [p_["obj"] for p_ in spec.get("parts", [])]
+    for o in objs:
+        for g in o.get("genes", []):
+            for t in g["transcripts"]:
+                if "cds" in t:
+                    key = json.dumps([t["cds"], t["strand"], t["frames"], t.get("protein_id"), t.get("product")])
+                    if key in seen:
+                        return True
+                    seen.add(key)
     return False
 
 
@@ -565,6 +649,9 @@ PROP = Prop(
                       "special_char:space", "special_char:gt", "special_char:amp", "special_char:dquote", "special_char:squote", "special_char:comma",
                       "special_char:unicode", "chunk_mode", "with_fasta", "reserved_key_in_qualifiers", "cutting_chunk_chromosome_coordinates"],
             rule="collections (genes with 1..2 isoforms, feature collections) with qualifier values over the full special-character set and look-alike/reserved keys, +-FASTA, chromosome or chunk-relative mode; the text is read by an independent 9-column reader with percent-decoding"),
+        Leg("multi_sequence", check_multi, strategy=strat_multi, n_quick=120, n_thorough=1500, shards_quick=4,
+            must_hit=["collections_given_out_of_name_order", "unordered", "with_fasta"],
+            rule="2..3 collections on differently named sequences written into ONE file (ordered / unordered, +-FASTA): one block of rows per sequence in the documented order, each block equal to its collection's rows and ordered by start, IDs unique and Parents resolving over the whole file, one FASTA record and sequence-region directive per sequence"),
         Leg("reparse", check_reparse, strategy=strat_reparse, n_quick=70, n_thorough=700, shards_quick=8,
             must_hit=["tx_biotype!=gene_biotype", "zero_gap_cds", "lookalike_key", "with_fasta"],
             rule="1..3 genes (1..3 isoforms, coding/non-coding, offsets, 0-bp-gap CDS, transcript biotype equal to or different from the gene's), qualifier values without comma/double quote; export -> parse_standard_gff3 / parse_gff3_embedded_fasta -> compare -> re-export"),
